@@ -281,3 +281,26 @@ func dataType2CommonType(t byte) common.DataType {
 		return common.NONE
 	}
 }
+
+// dedupKeepLast drops all but the last occurrence of every byte string (order kept).
+// Commands that take several members / fields / keys judge each argument against the
+// committed data, so a repeated argument must be folded before it is counted.
+func dedupKeepLast(args [][]byte) [][]byte {
+	if len(args) < 2 {
+		return args
+	}
+	last := make(map[string]int, len(args))
+	for i, a := range args {
+		last[string(a)] = i
+	}
+	if len(last) == len(args) {
+		return args
+	}
+	out := make([][]byte, 0, len(last))
+	for i, a := range args {
+		if last[string(a)] == i {
+			out = append(out, a)
+		}
+	}
+	return out
+}
